@@ -53,7 +53,7 @@ meta("C05",
 meta("C08",
      rule="G3 histories in which ~55% of the steps are calls the text model / grammar marks as failing (duplicate or clashing identifiers for every pair of record types, renames to identifiers in use, version conflicts, malformed lines, conflicting header values, edits of reference fields of connected lines, rm of unknown ids) interleaved with successful steps; full public observation compared before/after each raising call; non-trivial = history with >=1 raising call on a non-empty Gfa Probe steps: calls for which the text model has no verdict (identifiers mentioned in roles their carriers cannot play, lines taking the place of placeholders) are executed and, when they raise, must leave the observation unchanged; unknown-version scenarios include TS conflicts on VN headers. Level-0 unknown-version scenarios; header.add() call sequences with conflicting datatypes/values; group lines which define a tag of the group differently; the observation includes n_input_header_lines and the header values as returned by the API.",
      budget={"quick": 25, "thorough": 400},
-     min_counts={"quick": {"header_add_calls": 300, "foreign_line_objects_offered": 60, "probe_calls_failed": 400, "failing_calls": 1500}},
+     min_counts={"quick": {"header_add_calls": 300, "header_line_objects_offered": 60, "foreign_line_objects_offered": 60, "probe_calls_failed": 400, "failing_calls": 1500}},
      set_samples=["failure_classes"])
 meta("C09",
      rule="G3 histories with ~45% identifier clashes (additions and renames of every identified record type to identifiers in use by the same or another type) and legal renames; unique_names walker after every outermost mutation; model comparison after renames; non-trivial = history with a cross-type clash or a rename After every successful step a lookup oracle compares names/line()/segment() with the model (each identifier listed once and found as the real line that writes the model's record; freed identifiers not found), placeholders must exist exactly for mentioned-undefined identifiers, and line objects obtained earlier which claim to be connected must be the registered ones; L/C identifier tags are set, renamed and deleted; renames onto placeholders and to '*'. Probe calls (refused after they began to create references) with the placeholder oracle after every refused call.",
@@ -72,14 +72,14 @@ meta("C04",
 meta("C07",
      rule="G4 hostile text (empty/blank lines, every record letter with 0..10 fields from a pool of boundary atoms, printable/non-printable/non-ASCII garbage, very long fields, deep JSON) and single-point mutants of generated valid lines/documents, x vlevel 0-3 x version {None,gfa1,gfa2} x dialect, through Line(), Gfa(str|list), from_file, add_line; then follow-up public calls (line/segment/try_get_*/rm/validate/str, get/set/validate_field/field_to_s/delete/set_datatype) with hostile names and values; bin/gfapy-validate on generated files; every call runs under a logical step budget (5e6 + 5000*bytes function entries + loop back-edges inside gfapy/); non-trivial = case that reached a raise site not seen before in its shard Plus API-call histories (additions, removals, renames, tag and field edits incl. fragment external, probes) run through the client classifier; every field name of every record type is offered to set(); line instances are removed. Systematic stratum first: every field of every record type (64 slots) replaced by each of 36 atoms, levels 0/1/3, then a deterministic sweep (names, writers, validations, every field read, group resolution, removal of every line).",
      budget={"quick": 35, "thorough": 500},
-     min_counts={"quick": {"systematic_documents": 2500, "systematic_slots": 60, "files_with_undecodable_bytes": 100, "deep_nesting_documents": 3, "histories": 200, "public_calls": 30000, "gfapy_errors": 5000, "cli_runs": 20}},
+     min_counts={"quick": {"systematic_documents": 2500, "systematic_slots": 60, "files_with_undecodable_bytes": 100, "edited_lines_added": 300, "deep_nesting_documents": 3, "histories": 200, "public_calls": 30000, "gfapy_errors": 5000, "cli_runs": 20}},
      assumptions=["missing or unreadable files are environment faults outside the claim (files whose bytes are not UTF-8 text are inside it since the eighth round)",
                   "termination is restated as bounded progress: no call may exceed the deterministic step budget; a wall-clock watchdog firing is inconclusive"])
 
 meta("C03",
      rule="valid GFA1/GFA2 documents of 3..5 (quick) / 3..7 (thorough) lines with every record family: ALL n! arrival orders are executed and the full public observation (version, written records, namespace, per-line reference targets, per-collection back-references, path link direction flags) must be identical across orders, equal the model's neighbourhoods, and contain no placeholder for a defined identifier; larger documents (<=14 lines) with sampled orders; non-trivial = document with >=1 referencing record and >1 order; distinct = distinct documents 25% of the all-orders documents carry a twin record (two records written identically: C without ID, F, '*'-named E/G/O/U); reference targets are marked when they are placeholders or not the registered object. Sets defined on several U lines and paths on two O lines (tags of every datatype, distinct names) in sampled arrival orders, compared with the group the lines define; GFA1 documents in which paths state different overlaps over a link with unspecified overlap.",
      budget={"quick": 30, "thorough": 500},
-     min_counts={"quick": {"documents_with_twin_records": 30, "multiline_group_orders": 1000, "documents_path-link-overlaps": 60, "permutations": 20000, "documents_all_orders": 100}},
+     min_counts={"quick": {"documents_with_twin_records": 30, "multiline_group_orders": 1000, "incremental_builds": 3000, "documents_at_level_0": 100, "documents_path-link-overlaps": 60, "permutations": 20000, "documents_all_orders": 100}},
      exhaustive=None)
 meta("C13",
      rule="documents assembled from pools of GFA1-only, GFA2-only and version-neutral lines (pure, neutral, mixed; every line distinct so that multiplicity is observable) x explicit version {None,gfa1,gfa2} x dialect {standard,rgfa} x entry point {Gfa(list), Gfa(str), from_file} x vlevel; ALL permutations for documents of <=6 (quick) / <=7 (thorough) lines; expected version / VersionError from the independent line classifier; each input line must appear exactly once; non-trivial = document with a version-ambiguous line arriving before the deciding line 20% line-by-line scenarios: refused lines which hint at a version among neutral lines, then content of either version: the version follows from the accepted lines alone. Documents with a VN header naming a version which does not exist (1.1, 2.1, gfa1, ...): refused in every order. After a refused header VN the version must not be the refused one.",
@@ -131,7 +131,7 @@ meta("C18",
 meta("C14",
      rule="GFA1 (70%) and GFA2 graphs of 2-8 segments with M/=-only or '*' overlaps: backbone chains of 2-5 segments in every mix of orientations, rings, plus branches, self-links, hairpins on chain ends and inside, chains sharing junctions, with and without sequences; linear_paths() is compared with the independent chain finder (modulo reversal / ring rotation); after merge_linear_paths(): spelled sequence (orientation taken from the path gfapy reported), length, exact multiset of outward dovetails re-attached to the right ends, untouched segments, component partition, closed/symmetric object graph, idempotence; non-trivial = a chain of >=3 segments with mixed exit ends 30% of the merges use enable_tracking=True (the '^' marks in merged names are stripped before comparison). Graphs built at validation levels 0-3.",
      budget={"quick": 20, "thorough": 300},
-     min_counts={"quick": {"merges_at_level_3": 1500, "linear_path_calls": 5000, "merges_at_level_0": 1500, "merges_with_enable_tracking": 1000, "linear_paths_calls": 8000, "merges": 5000, "invariant_evaluations": 3000}},
+     min_counts={"quick": {"merges_at_level_3": 1500, "component_answers_after_merge": 5000, "linear_path_calls": 5000, "merges_at_level_0": 1500, "merges_with_enable_tracking": 1000, "linear_paths_calls": 8000, "merges": 5000, "invariant_evaluations": 3000}},
      set_samples=["features", "chain_lengths"])
 
 meta("C15",
@@ -149,5 +149,5 @@ meta("C17",
 meta("C06",
      rule="GFA1 graphs whose segments have a length and whose overlaps are specified, asymmetric CIGARs (I/D/P), every orientation pair, self-links, containments at offset 0 / inner / flush right, linear, circular and single-segment paths traversing links in either direction, named and unnamed edges, tags; GFA2 graphs from G1 with CIGAR or '*' alignments; whole-graph conversion in both directions (string and Gfa), line-level refusals, there-and-back; edges are compared in the E-line semantic normal form (the four spellings under sid swap => I<->D and orientation flip => reversed operations) computed by an independent model from CIGAR reference/query lengths and segment lengths; converted text must be VALID for the target grammar and accepted by Gfa(vlevel=3).validate(); bin/gfapy-convert sampled; non-trivial = graph with an alignment that is not its own swap/reverse Several P lines per document, also the same walk the other way round, lines in any arrival order. 8%: links/containments whose overlaps use GFA1-only operations (= X N S H): refusal, omission or valid GFA2, never invalid text (Gfa, line level, CLI); circular paths of one segment over a self-link. '$' rule on every position of every converted E/F line; links covering a whole segment; GFA2 graphs written from an independent link model with ordered groups in six presentations (segments, alternating, edges only, edge first/last/both) converted 2->1 and compared segment by segment and overlap by overlap.",
      budget={"quick": 25, "thorough": 360},
-     min_counts={"quick": {"gfa1_only_alignment_conversions": 2000, "whole_segment_overlap_conversions": 120, "positions_checked_for_$": 30000, "paths_compared_2to1": 500, "no_counterpart_conversions": 150, "conversions_after_edit": 100, "conversions_1to2": 3000, "conversions_2to1": 1200, "edges_compared": 8000, "round_trips": 4000, "paths_compared": 500, "line_level_refusals": 500}},
+     min_counts={"quick": {"gfa1_only_alignment_conversions": 2000, "whole_segment_overlap_conversions": 120, "positions_checked_for_$": 30000, "paths_compared_2to1": 500, "conversions_after_edge_replacement": 150, "groups_over_containments_converted": 40, "no_counterpart_conversions": 150, "conversions_after_edit": 100, "conversions_1to2": 3000, "conversions_2to1": 1200, "edges_compared": 8000, "round_trips": 4000, "paths_compared": 500, "line_level_refusals": 500}},
      assumptions=["containments whose container orientation is '-' (GFA1 does not say on which strand pos counts), dovetails spanning a whole segment, trace alignments and internal edges are outside the comparison (DESIGN 3.1)"])
